@@ -266,6 +266,14 @@ func sdpTracks(s string) [][]string {
 	return out
 }
 
+func seqno(id string) int {
+	var n int
+	if _, err := fmt.Sscanf(id, "h%d", &n); err == nil && fmt.Sprintf("h%d", n) == id {
+		return n
+	}
+	return -1
+}
+
 // every message is logged with the same fixed set of fields
 func normalise(m map[string]any) map[string]any {
 	_, hasUser := m["username"]
@@ -315,7 +323,7 @@ func normalise(m map[string]any) map[string]any {
 		"privileged": b01(m["privileged"]), "group": str(m["group"]), "perms": strs(m["permissions"]),
 		"value": val, "error": str(m["error"]), "noecho": b01(m["noecho"]), "label": str(m["label"]),
 		"replace": str(m["replace"]), "tracks": sdpTracks(str(m["sdp"])), "data": str(m["data"]),
-		"request": str(m["request"]), "tok": tok, "clear": clear, "tgroups": tgroups,
+		"request": str(m["request"]), "tok": tok, "clear": clear, "tgroups": tgroups, "seqno": seqno(str(m["id"])),
 	}
 }
 
@@ -333,6 +341,7 @@ func (d *driver) connect(name string) {
 	}
 	c.ws = ws
 	d.clients[name] = c
+	d.emit(map[string]any{"ev": "wsopen", "c": name})
 	go d.reader(c)
 	d.send(c, map[string]any{"type": "handshake", "version": []string{"2"}, "id": name}, false)
 }
